@@ -134,7 +134,7 @@ class _Run:
         st = cfg["stack"]
         # a view that leaves no column for the wrapped widget is outside the checked sizes (see assumptions):
         # a live program cannot skip a frame, so full-stack runs keep the terminal wider than the bar
-        min_cols = (max([cfg["bar"].get("width", 1)] + [int(o.get("width") or 0) for o in scen["ops"] if o["op"] == "bar"]) + 1) if cfg.get("bar") else 1
+        min_cols = (max([cfg["bar"].get("width", 1)] + [max(1, int(o.get("width") or 0)) for o in scen["ops"] if o["op"] == "bar"]) + 1) if cfg.get("bar") else 1
         size = [max(min_cols, cfg["size"][0]), cfg["size"][1]]
         first_size = list(size)
         events = []
@@ -344,9 +344,10 @@ class _Run:
         if op.get("side"):
             self.bar.scrollbar_side = op["side"]
             self.cur_side = op["side"]
-        if op.get("width"):
+        if op.get("width") is not None:
+            # (the bar is at least one column wide: smaller values are clamped, as the constructor does)
             self.bar.scrollbar_width = int(op["width"])
-            self.bw = int(op["width"])
+            self.bw = max(1, int(op["width"]))
         self.log.add("bar", [op.get("side"), op.get("width")])
         self.res.probe("bar_side_or_width_changed")
 
@@ -799,7 +800,7 @@ class ScrollEngine(Engine):
             elif q < 0.73:
                 ops.append({"op": "focus", "on": rng.random() < 0.7})
             elif q < 0.75 and cfg.get("bar"):
-                ops.append({"op": "bar", "side": rng.choice([None, "left", "right"]), "width": rng.choice([None, 1, 2])})
+                ops.append({"op": "bar", "side": rng.choice([None, "left", "right"]), "width": rng.choice([None, None, 1, 2, 0, -2])})
             else:
                 ops.append({"op": "render"})
         ops.append({"op": "render"})
@@ -835,7 +836,7 @@ class ScrollEngine(Engine):
             elif q < 0.72:
                 ops.append({"op": "focus", "on": rng.random() < 0.7})
             elif q < 0.74:
-                ops.append({"op": "bar", "side": rng.choice([None, "left", "right"]), "width": rng.choice([None, 1, 2])})
+                ops.append({"op": "bar", "side": rng.choice([None, "left", "right"]), "width": rng.choice([None, None, 1, 2, 0, -2])})
             else:
                 ops.append({"op": "render"})
         ops.append({"op": "render"})
